@@ -1,5 +1,5 @@
 \* exhaustive (quick): every ledger of <= 3 postings from a pool of 10, 198 BALANCES / JOURNAL shapes;
-\* every directive list of <= 3 of 9 directives, 14 PRINT filters
+\* every directive list of <= 3 of 9 directives, 20 PRINT filters (6 of them over tags / links)
 CONSTANTS
   Headers <- HeadersDef
   Pool <- Pool10
